@@ -144,3 +144,145 @@ class StubMaterial:
     energy = function
     stress = gradient
     elasticity = hessian
+
+
+class StubPotential:
+    """uninterpreted smooth potential Psi(x_1..x_n): value, gradient and (symmetric) hessian as ghost atoms
+    of the LP arguments; float mode: Psi = 1/2 x.M.x + 1/3 sum t_i x_i^3 with fixed random M (symmetric), t"""
+
+    def __init__(self, n, name="psi", symmetric=True, seed=7):
+        rng = np.random.RandomState(seed)
+        M = rng.rand(n, n) - 0.5
+        self.M = (M + M.T) / 2 if symmetric else M
+        self.t = rng.rand(n) * 0.3
+        self.n, self.name, self.symmetric = n, name, symmetric
+        self._cache = {}
+
+    def f_grad(self, x):
+        x = np.asarray(x, dtype=float)
+        return self.M @ x + self.t * x * x
+
+    def f_hess(self, x):
+        x = np.asarray(x, dtype=float)
+        return self.M + 2 * np.diag(self.t * x)
+
+    def atoms(self, args):
+        """(grad[n], hess[n, n]) ghost atoms for LP arguments `args`"""
+        args = [co(a) for a in args]
+        key = tuple(a.key() for a in args)
+        if key in self._cache:
+            return self._cache[key]
+        k = len(self._cache)
+        n = self.n
+        Hg = {}
+        H = np.empty((n, n), dtype=object)
+        for i in range(n):
+            for j in range(n):
+                if self.symmetric and (j, i) in Hg:
+                    Hg[i, j] = Hg[j, i]
+                else:
+                    Hg[i, j] = ring.ghost(f"{self.name}{k}_H{i}_{j}", args, impl=(lambda *x, a=(i, j): self.f_hess(x)[a]))
+                H[i, j] = LP.gen(Hg[i, j])
+        G = np.empty(n, dtype=object)
+        for i in range(n):
+            g = ring.ghost(f"{self.name}{k}_G{i}", args, impl=(lambda *x, a=i: self.f_grad(x)[a]))
+            ring.set_partials(g, [Hg[i, j] for j in range(n)])
+            G[i] = LP.gen(g)
+        self._cache[key] = (G, H)
+        return G, H
+
+
+class StubMixedMaterial:
+    """callee contract of a (u, p, J) mixed material (C03 `mixed`): gradient blocks (g_u, g_p, g_J) are
+    uninterpreted functions of (F, p, J); the six hessian blocks are their (symmetric) mixed derivatives"""
+
+    def __init__(self, vk, dim=3):
+        self.vk, self.dim = vk, dim
+        self.pot = StubPotential(dim * dim + 2, name="mix")
+        self.x = [np.eye(dim), np.ones(1), np.ones(1), np.zeros(0)]
+        self.kwargs = {}
+
+    def _eval(self, x):
+        F, p, J = x[0], x[1], x[2]
+        d = self.dim
+        batch = F.shape[2:]
+        sym = np.asarray(F).dtype == object or np.asarray(p).dtype == object
+        n = d * d + 2
+        G = np.empty((n,) + batch, dtype=object if sym else float)
+        H = np.empty((n, n) + batch, dtype=object if sym else float)
+        pb = np.broadcast_to(np.asarray(p).reshape(np.shape(p)[-len(batch):]) if np.ndim(p) >= len(batch) else p, batch)
+        Jb = np.broadcast_to(np.asarray(J).reshape(np.shape(J)[-len(batch):]) if np.ndim(J) >= len(batch) else J, batch)
+        for b in np.ndindex(*batch):
+            args = [F[(i, j) + b] for i in range(d) for j in range(d)] + [pb[b], Jb[b]]
+            if sym:
+                g, h = self.pot.atoms(args)
+            else:
+                g, h = self.pot.f_grad(args), self.pot.f_hess(args)
+            G[(slice(None),) + b] = g
+            H[(slice(None), slice(None)) + b] = h
+        return G, H, batch
+
+    def gradient(self, x, **kw):
+        G, H, batch = self._eval(x)
+        d = self.dim
+        return [G[: d * d].reshape((d, d) + batch), G[d * d][None], G[d * d + 1][None], x[-1]]
+
+    def hessian(self, x, **kw):
+        G, H, batch = self._eval(x)
+        d = self.dim
+        n = d * d
+        Huu = H[:n, :n].reshape((d, d, d, d) + batch)
+        Hup = H[:n, n].reshape((d, d) + batch)
+        HuJ = H[:n, n + 1].reshape((d, d) + batch)
+        return [Huu, Hup, HuJ, H[n, n][None], H[n, n + 1][None], H[n + 1, n + 1][None]]
+
+
+class StubAreaChange:
+    """callee contract of constitution.AreaChange (proved in C03 `kinematics`): function([F]) == cof(F)
+    (== J F^-T), function([F], N) == cof(F).N, gradient == D(function, F) -- evaluated polynomially
+    (adjugate / epsilon-epsilon formula), so callers are not burdened with 1/det F"""
+
+    def __init__(self, parallel=False):
+        self.parallel = parallel
+
+    @staticmethod
+    def _cof(F):
+        from .symnp import adj_ref
+
+        return np.swapaxes(adj_ref(F), 0, 1)
+
+    @staticmethod
+    def _dcof(F):
+        d = F.shape[0]
+        out = np.zeros((d, d, d, d) + F.shape[2:], dtype=F.dtype)
+        if F.dtype == object:
+            out[...] = LP()
+        if d == 3:
+            eps = np.zeros((3, 3, 3))
+            eps[0, 1, 2] = eps[1, 2, 0] = eps[2, 0, 1] = 1
+            eps[0, 2, 1] = eps[2, 1, 0] = eps[1, 0, 2] = -1
+            for i, J, k, L, m, N in itertools.product(range(3), repeat=6):
+                c = eps[i, k, m] * eps[J, L, N]
+                if c:
+                    out[i, J, k, L] = out[i, J, k, L] + int(c) * F[m, N]
+        elif d == 2:
+            e2 = np.array([[0, 1], [-1, 0]])
+            for i, J, k, L in itertools.product(range(2), repeat=4):
+                c = e2[i, k] * e2[J, L]
+                if c:
+                    out[i, J, k, L] = out[i, J, k, L] + int(c)
+        return out
+
+    def function(self, extract, N=None, parallel=None):
+        F = np.asarray(extract[0])
+        C = self._cof(F)
+        if N is None:
+            return [C]
+        return [np.einsum("ij...,j...->i...", C, N)]
+
+    def gradient(self, extract, N=None, parallel=None):
+        F = np.asarray(extract[0])
+        dC = self._dcof(F)
+        if N is None:
+            return [dC]
+        return [np.einsum("ijkl...,j...->ikl...", dC, N)]
